@@ -41,6 +41,9 @@ impl Primitive { #[verifier::external_body] pub fn clone(&self) -> (r: Primitive
 // what the handler does to the importer's frame, in order
 pub enum Bind { Own(Seq<char>, Primitive),      // register_variable_local: a NEW cell of the importer holding the value
                 Shared(Seq<char>, int) }         // ref_variable: the name is bound to an EXISTING cell
+pub open spec fn bind_name(b: Bind) -> Seq<char> { match b { Bind::Own(n, _) => n, Bind::Shared(n, _) => n } }
+// what a read of the name yields right after the binding
+pub open spec fn bind_value(b: Bind) -> Primitive { match b { Bind::Own(_, v) => v, Bind::Shared(_, c) => cell_value(c) } }
 pub struct Ctx { pub stack: Vec<Primitive>, pub binds: Ghost<Seq<Bind>> }
 impl Ctx {
     #[verifier::external_body] pub fn get_last_op_item(&self) -> (r: Option<&Primitive>)
@@ -67,54 +70,88 @@ def build(repo):
     src = Source(repo)
     log = []
     f = src.fn(INSTR, "split_lookup_store", "pub mod implementations")
-    body = list(f["body"])
-    inv = ("invariant $K <= args.len(), ctx.stack == verif_ctx0.stack, ref_view(&view) == verif_m, forall|j: int| 0 <= j < $K ==> verif_m.contains_key(text_of(&args@[j])), "
-           "ctx.binds@ == verif_ctx0.binds@ + imported(verif_m, args@, $K as int), forall|i: int| verif_ctx0.binds@.len() <= i < ctx.binds@.len() ==> ctx.binds@[i] is Own decreases args.len() - $K")
+    INV = ("invariant $K <= args.len(), ctx.stack == verif_ctx0.stack, ref_view(&view) == verif_m, forall|j: int| 0 <= j < $K ==> verif_m.contains_key(text_of(&args@[j])), "
+           "ctx.binds@.len() == verif_ctx0.binds@.len() + $K, "
+           "forall|j: int| 0 <= j < $K ==> bind_name(#[trigger] ctx.binds@[verif_ctx0.binds@.len() + j]) == text_of(&args@[j]) "
+           "&& bind_value(ctx.binds@[verif_ctx0.binds@.len() + j]) == cell_value(cell_id(&verif_m[text_of(&args@[j])]))$EXTRA decreases args.len() - $K")
 
-    def loop(b):
-        v, x = text(b["v"]), text(b["x"])
-        if v != "args":
-            return None
-        k = "verif_k"
-        return [G("let ghost verif_m = ref_view(&view); proof { assert(ctx.binds@ + imported(verif_m, args@, 0) =~= ctx.binds@); }"),
-                f"let mut {k} : usize = 0 ; while {k} < args . len ( )", G(inv.replace("$K", k)), "{", f"let {x} = & args [ {k} ] ; {k} += 1 ;",
-                *b["body"], G(f"proof {{ assert(ctx.binds@ =~= verif_ctx0.binds@ + imported(verif_m, args@, {k} as int)); lemma_imported(verif_m, args@, {k} as int); }}"), "}",
-                G("proof { verif_done = true; }")]
+    def mk_body(extra, what):
+        def loop(b):
+            v, x = text(b["v"]), text(b["x"])
+            if v != "args":
+                return None
+            k = "verif_k"
+            return [G("let ghost verif_m = ref_view(&view);"),
+                    f"let mut {k} : usize = 0 ; while {k} < args . len ( )", G(INV.replace("$K", k).replace("$EXTRA", extra)), "{", f"let {x} = & args [ {k} ] ; {k} += 1 ;",
+                    *b["body"], "}",
+                    G("proof { verif_done = true; }")]
 
-    rules = [
-        Rule("R3", "bail ! $a", "return Err ( VErr )", why="bail! -> return Err (error text dropped)"),
-        Rule("R2", "for $x in $v { $$body }", loop, count=1, why="for over &[String] -> indexed while (iteration order of slice::Iter)"),
-        Rule("R1", "name . to_owned ( )", "clone_vs ( name )", why="String clone"),
-        Rule("R1", "name . clone ( )", "clone_vs ( name )", why="String clone"),
-        Rule("R1", "Cow :: Owned ( $$e )", "into_cow ( $$e )", why="Cow wrapper: the same text"),
-        Rule("R1", "$e . into ( )", "into_cow ( $e )", why="Into<Cow<str>>: the same text"),
-    ]
-    body = translate(body, rules, log, "implementations::split_lookup_store")
-    check_closed(body, "split_lookup_store")
+        rules = [
+            Rule("R3", "bail ! $a", "return Err ( VErr )", why="bail! -> return Err (error text dropped)"),
+            Rule("R2", "for $x in $v { $$body }", loop, count=1, why="for over &[String] -> indexed while (iteration order of slice::Iter)"),
+            Rule("R1", "name . to_owned ( )", "clone_vs ( name )", why="String clone"),
+            Rule("R1", "name . clone ( )", "clone_vs ( name )", why="String clone"),
+            Rule("R1", "Cow :: Owned ( $$e )", "into_cow ( $$e )", why="Cow wrapper: the same text"),
+            Rule("R1", "$e . into ( )", "into_cow ( $e )", why="Into<Cow<str>>: the same text"),
+        ]
+        out = translate(list(f["body"]), rules, log if what == "main" else [], "implementations::split_lookup_store")
+        check_closed(out, "split_lookup_store")
+        return out
+
+    # may an importer rebind a name it imported?  (known finding D45: yes -- Parser::import_names does not mark the name const; the obligation
+    # that decides it is C10.import.member-const in unit c10_import_names; here only its syntactic trace is looked up, to pick the clause below)
+    rebind_possible = True
+    try:
+        fi = src.fn("compiler/src/ast/import.rs", "import_names")
+        rebind_possible = "ident . mark_const ( )" not in " ".join(fi["body"])
+    except Undecided:
+        pass
+    own_clause = ("        // WHILE an importer may rebind an imported name (known finding D45), the name must be a cell of the importer's own: bound to the\n"
+                  "        // module's cell, the importer's `name = v` would overwrite the module's variable for everybody (\"importers cannot reassign them\")\n"
+                  "        forall|i: int| old(ctx).binds@.len() <= i < final(ctx).binds@.len() ==> final(ctx).binds@[i] is Own,\n") if rebind_possible else ""
+    log.append(("R0", "Parser::import_names", "`ident.mark_const()` " + ("absent" if rebind_possible else "present"),
+                "an importer " + ("MAY rebind an imported name: own-cell clause required" if rebind_possible else "cannot rebind an imported name: the name may (and, for D105, should) denote the module's cell")))
+    body = mk_body(", forall|i: int| verif_ctx0.binds@.len() <= i < ctx.binds@.len() ==> ctx.binds@[i] is Own" if rebind_possible else "", "main")
+    body_shared = mk_body(", forall|i: int| verif_ctx0.binds@.len() <= i < ctx.binds@.len() ==> ctx.binds@[i] is Shared", "kf")
     gen = header(log, f"{INSTR}: split_lookup_store") + SPEC + f"""
-//@ OBL C11.import.names-own-cells
+//@ OBL C11.import.names-bound
 #[verifier::loop_isolation(false)]
 pub fn split_lookup_store(ctx: &mut Ctx, args: &Vec<VString>) -> (r: Result<(), VErr>)
     ensures
-        // success: the value on top is a module that exports every listed name, and each name became a variable of the importer's OWN
-        // (never a second handle of the module's variable cell), in the order written, holding the export's current value
+        // success: the value on top is a module that exports every listed name, and each name is bound in the importer, in the order written,
+        // to what the export holds at that moment
         r is Ok ==> old(ctx).stack@.len() > 0 && old(ctx).stack@.last() is Module
             && (forall|j: int| 0 <= j < args@.len() ==> module_view(&old(ctx).stack@.last()->Module_0).contains_key(text_of(&args@[j])))
-            && final(ctx).binds@ == old(ctx).binds@ + imported(module_view(&old(ctx).stack@.last()->Module_0), args@, args@.len() as int),
-        // failure or not: nothing is ever bound to a module-owned cell
-        forall|i: int| old(ctx).binds@.len() <= i < final(ctx).binds@.len() ==> final(ctx).binds@[i] is Own,
-        final(ctx).stack == old(ctx).stack,
+            && final(ctx).binds@.len() == old(ctx).binds@.len() + args@.len()
+            && (forall|j: int| 0 <= j < args@.len() ==> bind_name(#[trigger] final(ctx).binds@[old(ctx).binds@.len() + j]) == text_of(&args@[j])
+                    && bind_value(final(ctx).binds@[old(ctx).binds@.len() + j]) == cell_value(cell_id(&module_view(&old(ctx).stack@.last()->Module_0)[text_of(&args@[j])]))),
+{own_clause}        final(ctx).stack == old(ctx).stack,
 {{
     let ghost verif_ctx0 = *ctx; let ghost mut verif_done = false;
 {render(body, 1)}
 }}
+
+//@ KF C11.import.names-share-module-state
+// the property's wording: "all importers observe the same module instance, so state changed through one importer is seen by the others" --
+// for a name imported BY NAME that requires the name to denote the module's own variable (the same cell), as `m.name` does.  The same text
+// binds a fresh cell holding a copy (known finding D105): `import count from counter` keeps reading the value `count` had when the import ran
+#[verifier::loop_isolation(false)]
+pub fn split_lookup_store_shared(ctx: &mut Ctx, args: &Vec<VString>) -> (r: Result<(), VErr>)
+    ensures
+        r is Ok ==> forall|i: int| old(ctx).binds@.len() <= i < final(ctx).binds@.len() ==> final(ctx).binds@[i] is Shared,
+{{
+    let ghost verif_ctx0 = *ctx; let ghost mut verif_done = false;
+{render(body_shared, 1)}
+}}
 }} // verus!
 fn main() {{}}
 """
-    return gen, [Obl("C11.import.names-own-cells", ["C11", "C10"], fn="split_lookup_store",
-                     desc="split_lookup_store (`import a, b from m`): every listed name is bound, in order, to a variable of the importer's own holding the export's current value -- never to the module's variable cell; fails when a name is not exported")], log
+    return gen, [Obl("C11.import.names-bound", ["C11", "C10"], fn="split_lookup_store",
+                     desc="split_lookup_store (`import a, b from m`): every listed name is bound in the importer, in the order written, to what the export holds; fails when a name is not exported; while importers may rebind imported names (D45) never to the module's own cell"),
+                 Obl("C11.import.names-share-module-state", ["C11"], kind="kf", finding="D105", fn="split_lookup_store",
+                     desc="a name imported by name denotes the module's own variable, so a later change of the module's state is seen through it -- known finding D105: it is bound to a copy made when the import ran")], log
 
 
-UNITS = [VUnit("c11_split_store", ["C11", "C10"], "import a, b from m: imported names are the importer's own variables", build)]
+UNITS = [VUnit("c11_split_store", ["C11", "C10"], "import a, b from m: what the imported names are bound to", build)]
 UNITS[0].assumes = ["Ctx::register_variable_local creates a new variable cell in the importer's frame; Ctx::ref_variable binds a name to an existing cell (abstract callees; gc cell semantics assumed)",
                     "the module value's export table (name -> cell) is what export_name built (unit c11_export)"]
